@@ -25,7 +25,7 @@ pub static DEF: PropDef = PropDef {
     level: "exploration",
     total: |t| t.pick(128, 6400),
     run,
-    rule: "0..12 machines mixing Pci/Ipv4/Udp/Tcp/Arp/SocketAPI with the built-in applications (SendMessage, Capture, Forward, PingPong, DhcpClient/DhcpServer, ArpRouter) and harness applications that initialise slowly (10..500 ms of simulated time before arriving at the barrier), request shutdown early/late/concurrently with distinct statuses (in a quarter of the runs as a burst: all requesters at one instant, 1..3 requests each), or never finish; timeouts 0 ms..5 s; paused current_thread runtime (exact times) and multi_thread runtime (order stamps only). A process-wide SeqCst counter stamps: each harness application's arrival at the barrier, every frame entering any network (H4), every delivery to a harness application, every shutdown request. Barrier oracle: no frame and no delivery may be stamped before the last harness arrival (the barrier cannot have released earlier). Status oracle: the returned status is that of a request no other request finished before; TimedOut iff no request was made before the timeout; simulated elapsed <= timeout + 1 s. Non-trivial = >=1 slow initialiser AND >=1 built-in sender in the same run; distinct by configuration hash.",
+    rule: "0..12 machines (plus, in a quarter of the runs, 1..2 machines without any protocol) mixing Pci/Ipv4/Udp/Tcp/Arp/SocketAPI with the built-in applications (SendMessage, Capture, Forward, PingPong, DhcpClient/DhcpServer, ArpRouter) and harness applications that initialise slowly (10..500 ms of simulated time before arriving at the barrier), request shutdown early/late/concurrently with distinct statuses (in a quarter of the runs as a burst: all requesters at one instant, 1..3 requests each), or never finish; timeouts 0 ms..5 s; paused current_thread runtime (exact times) and multi_thread runtime (order stamps only). A process-wide SeqCst counter stamps: each harness application's arrival at the barrier, every frame entering any network (H4), every delivery to a harness application, every shutdown request. Barrier oracle: no frame and no delivery may be stamped before the last harness arrival (the barrier cannot have released earlier). Status oracle: the returned status is that of a request no other request finished before; TimedOut iff no request was made before the timeout, and not before the timeout has elapsed; a run in which nothing can request the end (no machines, machines without protocols, idle machines) ends by its timeout only; simulated elapsed <= timeout + 1 s. Non-trivial = >=1 slow initialiser AND >=1 built-in sender in the same run; distinct by configuration hash.",
     assumptions: &[
         "requests issued at exactly the same simulated instant, or exactly at the timeout instant, may win in either order",
         "multi-thread runs: a wall-clock watchdog firing is inconclusive; time bounds are not judged there",
@@ -64,6 +64,7 @@ fn scenario(env: &Env, k: u64, case: u64, rng: &mut rand::rngs::SmallRng, d: &mu
     let slow: Vec<u64> = (0..n_harness).map(|_| if rng.chance(1, 2) { rng.gen_range(10..=500) } else { 0 }).collect();
     let never: Vec<bool> = (0..n_harness).map(|_| rng.chance(1, 6)).collect();
     let timeout_ms: u64 = *rng.pick(&[0u64, 1, 50, 300, 1000, 5000]);
+    let n_empty = if rng.chance(1, 4) { rng.gen_range(1..=2usize) } else { 0 };
     let mut reqs: Vec<ShutReq> = vec![];
     // burst: every requesting application fires at one common instant, each possibly several times in a row,
     // so that many requests are pending before the run task polls once
@@ -100,7 +101,7 @@ fn scenario(env: &Env, k: u64, case: u64, rng: &mut rand::rngs::SmallRng, d: &mu
     };
     let desc = json!({
         "runtime": multi.map(|w| format!("multi_thread({w})")).unwrap_or("current_thread paused".into()),
-        "builtin": format!("{builtin:?}"), "arp": with_arp, "harness_apps": n_harness, "slow_init_ms": slow, "never_finishing": never,
+        "builtin": format!("{builtin:?}"), "arp": with_arp, "harness_apps": n_harness, "machines_without_protocols": n_empty, "slow_init_ms": slow, "never_finishing": never,
         "timeout_ms": timeout_ms, "shutdown_requests": reqs.iter().map(|r| format!("{r:?}")).collect::<Vec<_>>(), "scenario": k, "case": case,
     });
     let arrivals: Arc<Mutex<Vec<(u64, u64)>>> = Arc::new(Mutex::new(vec![]));
@@ -242,6 +243,10 @@ fn scenario(env: &Env, k: u64, case: u64, rng: &mut rand::rngs::SmallRng, d: &mu
                 }
                 machines.push(with_app(mach, 0, || parts).arc());
             }
+            // machines without any protocol: they take part in nothing and must change nothing
+            for _ in 0..n_empty {
+                machines.push(Machine::new().arc());
+            }
             let t_before = tokio::time::Instant::now();
             let status = run_internet_with_timeout(&machines, ms(timeout_ms)).await;
             let elapsed = tokio::time::Instant::now().duration_since(t_before);
@@ -294,6 +299,11 @@ fn scenario(env: &Env, k: u64, case: u64, rng: &mut rand::rngs::SmallRng, d: &mu
     let before: Vec<&(u32, u64, u64, Duration)> = rq.iter().filter(|r| r.1 < returned_stamp).collect();
     match &status {
         ExitStatus::TimedOut => {
+            // the timeout cannot win before it has elapsed
+            if multi.is_none() && elapsed < t_out {
+                d.violation("timed-out-before-the-timeout", format!("the run returned TimedOut after {elapsed:?} of simulated time with a timeout of {t_out:?}"), witness(json!({})));
+                return;
+            }
             // no request may have *finished* strictly before the timeout instant
             if multi.is_none() {
                 if let Some(r) = rq.iter().find(|r| r.3 < t_out) {
@@ -330,6 +340,15 @@ fn scenario(env: &Env, k: u64, case: u64, rng: &mut rand::rngs::SmallRng, d: &mu
             }
         }
         ExitStatus::Exited => {
+            // nobody asked for the end and nothing in the run can ask for it: only the timeout can end such a run
+            if rq.is_empty() && (builtin == Builtin::None || builtin == Builtin::Dhcp) {
+                d.violation(
+                    "exited-although-nothing-could-end-the-run",
+                    format!("the run returned Exited after {elapsed:?} although no shutdown was requested and no application that shuts down was present; only the timeout ({t_out:?}) could end it"),
+                    witness(json!({})),
+                );
+                return;
+            }
             // built-in applications (PingPong, Capture) end the run this way; with harness requests earlier that is wrong
             if multi.is_none() {
                 if let Some(r) = before.iter().find(|r| r.3 + ms(1) < elapsed.min(t_out)) {
